@@ -898,9 +898,6 @@ fn mutate(which: &str, counter: u64, base: &[u8], other: &[u8], r: &mut Rng) -> 
                 _ => r.next() as u8,
             };
             b[pos] = v;
-            if pos < 4 || r.chance(1, 20) {
-                // leave a broken prefix only rarely
-            }
         }
         "trunc" => {
             let cut = if r.chance(1, 2) && len > fields_pos(&b) {
